@@ -187,6 +187,8 @@ structure SafeArmFn where
   slots : List SafeSlot
   /-- statements that are neither an assert nor the dispatch -/
   otherStmts : Nat
+  /-- asserts that come after the dispatch (they would not guard it) -/
+  assertsAfterDispatch : Nat
   deriving Repr, Inhabited
 
 /-- one `export_safe_*!` invocation -/
